@@ -281,6 +281,22 @@ impl<T: Dec> Dec for Vec<T> {
     }
 }
 
+impl<T: Dec> Dec for tachys::view::iterators::StaticVec<T>
+where
+    tachys::view::iterators::StaticVec<T::V>: RenderHtml + Send,
+{
+    type V = tachys::view::iterators::StaticVec<T::V>;
+    fn ty() -> TyD {
+        TyD::SVec(Box::new(T::ty()))
+    }
+    fn from_val(v: &ValD) -> Option<Self::V> {
+        match v {
+            ValD::Vec(vs) => Some(vs.iter().map(T::from_val).collect::<Option<Vec<_>>>()?.into()),
+            _ => None,
+        }
+    }
+}
+
 // ------------------------------------------------------------------------------- keyed
 
 pub type KeyedItem = HtmlElement<el::Li, (), (String,)>;
@@ -753,6 +769,11 @@ dec_element_children!(Span, span, "span");
 dec_element_children!(P, p, "p");
 dec_element_children!(Ul, ul, "ul");
 dec_element_children!(Li, li, "li");
+// raw-text elements (`ESCAPE_CHILDREN = false`): built and rebuilt on the client like any other
+dec_element_children!(Textarea, textarea, "textarea");
+dec_element_children!(Style, style, "style");
+dec_element_children!(Script, script, "script");
+dec_element_children!(Noscript, noscript, "noscript");
 dec_element!(Input, input, "input");
 dec_element!(Br, br, "br");
 
